@@ -179,7 +179,7 @@ class PathOb(Obligation):
             res = r["result"]
             # a passing witness: the real app must not leak the marker, and must answer with the same status class
             lm = (not res["leak"]) and (not conc["status"] or not res["status"] or conc["status"][0][:3] == res["status"][:3]
-                                        or (conc["status"][0][:3] == "200" and res["status"][:3] in ("404", "400")))
+                                        or (conc["status"][0][:3] == "200" and (res["status"][:3] in ("404", "400") or res["status"].startswith("escaped"))))
             return {"real_ok": not res["leak"], "lifted_matches": lm, "detail": res}
         code = REPLAY % {"c": repr(conc), "cwd": repr("/" + "/".join(self.P.CWD))}
         r = R.run_code(code)
@@ -267,6 +267,10 @@ try:
     sys._lx_audit = []
     try:
         out = dr.app(env, lambda s, h: st.append(s))
+    except OSError as e:
+        # an OS error class the handler does not map to 404 (e.g. NotADirectoryError for 'file/.') escapes the app: no
+        # response, hence no disclosure (the escape itself is C10's subject)
+        out, st = [], ["escaped " + type(e).__name__]
     finally:
         tried, sys._lx_audit = sys._lx_audit, None
     blob = b"".join(out)
